@@ -249,7 +249,9 @@ def run_driver(pid, case_file, extra_args=""):
             # a stray output line would shift every later verdict: trust none of this chunk
             return [f"error driver-output-misaligned ({len(outl)} lines for {len(ch)} cases)"] * len(ch)
         if len(outl) != len(ch):
-            outl += [f"error driver-died rc={p.returncode} {p.stderr[-200:]!r}"] * (len(ch) - len(outl))
+            # fewer lines than cases: the driver died, or skipped a line (then later verdicts would
+            # be attributed to the wrong cases): trust none of this chunk
+            return [f"error driver-died-or-skipped rc={p.returncode} {len(outl)} lines for {len(ch)} cases {p.stderr[-200:]!r}"] * len(ch)
         return outl
 
     with ThreadPoolExecutor(k) as ex:
@@ -319,7 +321,18 @@ def run_check(spec, argv):
             replay = argv[i + 1]; i += 2
         else:
             i += 1
-    seed = int(os.environ.get("VERIF_SEED", "1"))
+    try:
+        seed = int(os.environ.get("VERIF_SEED", "1"))
+    except ValueError:
+        seed = int.from_bytes(os.environ["VERIF_SEED"].encode()[:7], "big")
+    seed %= 2 ** 62       # the runners parse a u64 and do arithmetic on it
+    replay_full = False
+    if replay:
+        rp0 = json.load(open(replay))
+        if not [c for c in rp0.get("cases", []) if c.strip()]:
+            # a replay without concrete cases (broken proof / floor / census / build problem):
+            # reproduce it by re-running the whole check with the recorded seed and tier
+            seed, tier, replay, replay_full = int(rp0.get("seed", seed)) % 2 ** 62, rp0.get("tier", tier), None, True
     t0 = time.time()
     os.makedirs(WORK, exist_ok=True)
     problems = []     # (kind, detail) that break "shown to hold"
@@ -401,7 +414,8 @@ def run_check(spec, argv):
     tie_diffs = len(diffs) + len(errors)
     if "post" in spec and lines and not replay:
         for kind, ln, v in spec["post"](lines, verdicts):
-            (viols if kind == "viol" else diffs).append((ln, v))
+            # aggregate findings (floors, census, caps): not replayable as a case line
+            (viols if kind == "viol" else diffs).append((ln, v, "post"))
 
     searched = 0
     proof_broken = any(k in ("proof", "coqchk") for k, _ in problems)
@@ -413,7 +427,7 @@ def run_check(spec, argv):
         for k in range(1 if mutation_run else spec.get("search_rounds", 3)):
             sf = os.path.join(WORK, f"{run_tag}.search{k}.cases")
             sn = spec["sizes"]["quick"] if mutation_run else spec.get("search_n", spec["sizes"]["thorough"])
-            rc, out = sh(f"{binpath} --seed {seed * 7919 + 104729 * (k + 1)} --n {sn} "
+            rc, out = sh(f"{binpath} --seed {(seed * 7919 + 104729 * (k + 1)) % 2 ** 62} --n {sn} "
                          f"--tier {'quick' if mutation_run else 'thorough'} --out {sf} " + spec.get("extra_runner_args", ""), timeout=3000)
             if rc != 0:
                 break
@@ -438,7 +452,7 @@ def run_check(spec, argv):
     if viols:
         viols.sort(key=lambda x: len(x[0]))
         path = write_replay(pid, {"property": pid, "kind": "failing-input", "seed": seed, "tier": tier,
-                                  "cases": [v[0].split("|")[0].strip() for v in viols[:20]],
+                                  "cases": [v[0].split("|")[0].strip() for v in viols[:20] if len(v) == 2],
                                   "observed": [v[0] for v in viols[:20]],
                                   "verdicts": [v[1] for v in viols[:20]],
                                   "replay_cmd": f"./check {pid} --replay <this file>"})
@@ -453,7 +467,7 @@ def run_check(spec, argv):
             broken.append(f"correspondence {pid}: model and implementation differ on {len(diffs) + len(errors)} cases")
         path = write_replay(pid, {"property": pid, "kind": "no-failing-input-found", "seed": seed, "tier": tier,
                                   "no_longer_checks": broken + [f"theorems pinned in pins/{pid}.v: {pr['theorems']}"],
-                                  "cases": [d[0].split("|")[0].strip() for d in (diffs + errors)[:20]],
+                                  "cases": [d[0].split("|")[0].strip() for d in (diffs + errors)[:20] if len(d) == 2],
                                   "observed": [d[0] for d in (diffs + errors)[:20]],
                                   "verdicts": [d[1] for d in (diffs + errors)[:20]],
                                   "searched_cases": searched})
@@ -464,8 +478,8 @@ def run_check(spec, argv):
     if exit_code:
         # make a failing run diagnosable from its stdout alone
         for kind, items in (("viol", viols), ("diff", diffs), ("error", errors)):
-            for ln, v in items[:4]:
-                print(f"  {kind}: {v[:300]}   <- case: {ln[:300]}")
+            for it in items[:4]:
+                print(f"  {kind}: {it[1][:300]}   <- case: {it[0][:300]}")
         for k, d in problems[:4]:
             print(f"  problem[{k}]: {d[:600]}")
 
@@ -505,7 +519,7 @@ def run_check(spec, argv):
     }
     if "extra_coverage" in spec:
         cov.update(spec["extra_coverage"](lines, verdicts))
-    if not replay:
+    if not replay and not replay_full:
         write_evidence(pid, tier, seed, cov, spec.get("assumptions", []), time.time() - t0, nviol)
     try:
         if os.path.exists(cases_file) and not replay and REPO == "/repo" and os.path.getsize(cases_file) < 300_000_000:
